@@ -1,6 +1,7 @@
 import TypstyleModel.Props.C04
 import TypstyleModel.Props.C11
 import TypstyleModel.Model.Printer.Knot
+import TypstyleModel.Proofs.Tokens
 /-! C01 — formatting preserves the syntax tree (partial: printer side; the re-parse is an assumption). -/
 namespace Typstyle
 open Pretty
@@ -41,5 +42,30 @@ theorem C01_not_in_from_own_tokens (e : Env) (c : ANode) (h : c.kind = .in_) (ht
   constructor
   · simp [binOpConv, h, ht]
   · simp [binOpConv, h, binOpOfKind]
+
+
+/-- T1.3 (tokens are preserved, by construction): the printer's documents carry, besides the
+layout family, the text of their code tokens (everything except blanks and the delimiters and
+separators `( ) { } , ; :` the formatter may add or drop); every builder operation maintains it, and
+an alternative (`flatAlt`) is only admitted between documents with the same token text.  If the
+family the printer produced for a tree passes the final comparison with the tree's own token text
+(`tokensCertified`, evaluated by the correspondence run on every case; the printed document is at the
+same time compared with the implementation's), then at **every** width and **every** indent unit
+the rendered layout contains exactly the tree's code tokens, in order. -/
+theorem C01_tokens_preserved (root : Node) (d : Twin.Doc) (h : tokensCertified root d = true) (u w : Nat) :
+    tokText (best w 0 [⟨0, .brk, d.fam u⟩]) = (specToks (prepare root)).toList :=
+  certified_tokens_best root d h u w
+
+/-- … and so does every other consistent layout of the family (the renderer is free to choose). -/
+theorem C01_tokens_preserved_all_layouts (root : Node) (d : Twin.Doc) (h : tokensCertified root d = true)
+    (u : Nat) (m : Mode) (xs : List Atom) (hl : Lay m (d.fam u) xs) :
+    tokText xs = (specToks (prepare root)).toList :=
+  certified_tokens root d h u m xs hl
+
+/-- For a tree without comments and without `@typstyle off` regions (whose Space/Parbreak leaves are blank, as the parser's are) the prescribed token text is
+simply the kept characters of the source text. -/
+theorem C01_specToks_is_source_text (t : ANode) (h : t.noCommentNoVerbatim = true) (hb : t.blankSpaces = true) :
+    specToks t = Pretty.keepOf t.intoText :=
+  specToks_plain_node t h hb
 
 end Typstyle
